@@ -163,7 +163,10 @@ def execute_run(cfg, rid, objs=None, keep=None):
         if kind == 'opt':
             x, fraw = Inference.opt(p0, prob.data, model, None, log_opt=log, maxeval=b, **kw)
         elif kind == 'optimize_grid':
-            grid = tuple(slice(num(g[0]), num(g[1]), complex(0, g[2]) if g[3] else num(g[2])) for g in cfg['grid'])
+            if cfg.get('int_grid'):     # numpy.index_exp[1:4:1]: Python ints, the grid points are integer-typed arrays
+                grid = tuple(slice(int(num(g[0])), int(num(g[1])), int(num(g[2]))) for g in cfg['grid'])
+            else:
+                grid = tuple(slice(num(g[0]), num(g[1]), complex(0, g[2]) if g[3] else num(g[2])) for g in cfg['grid'])
             out = Inference.optimize_grid(prob.data, model, None, grid, full_output=full, **kw)
             x, fraw = (out[0], out[1]) if full else (out, None)
         else:
@@ -371,7 +374,7 @@ def edge_grid_cfgs(seed):
     one to three free parameters, full_output on and off."""
     cases = []
 
-    def case(name, grid, fixed, multinom, full, container='list'):
+    def case(name, grid, fixed, multinom, full, container='list', **extra):
         k = len(cases)
         it = iter(grid)
         g = [None if f is not None else next(it) for f in fixed]
@@ -382,6 +385,7 @@ def edge_grid_cfgs(seed):
                       'grid': [[rat(a), rat(b), c, d] if d else [rat(a), rat(b), rat(c), d] for a, b, c, d in grid],
                       'p0': [NONE] * len(fixed), 'lb': [enc(None if x is None else x[0]) for x in g],
                       'ub': [enc(None if x is None else x[1]) for x in g], 'lb_is_none': False, 'ub_is_none': False})
+        cases[-1].update(extra)
     for full in (True, False):
         for mn in (True, False):
             case('one_free', [(0.0, 2.0, 3, True)], [None], mn, full)
@@ -391,6 +395,13 @@ def edge_grid_cfgs(seed):
             case('fixed_zero_middle', [(0.0, 1.0, 2, True), (0.5, 1.5, 0.5, False)], [None, 0.0, None], mn, full)
             case('three_free', [(0.0, 1.0, 2, True), (-1.0, 1.0, 1.0, False), (0.5, 1.0, 2, True)], [None, None, None], mn, full)
             case('single_point_range', [(0.5, 0.5, 1, True), (0.0, 1.0, 3, True)], [None, None], mn, full)
+    # integer grids (slice objects with integer start / stop / step) with NON-integer fixed parameters
+    for full in (True, False):
+        for mn in (True, False):
+            case('int_grid_fixed_last', [(1, 4, 1, False)], [None, 0.4], mn, full, int_grid=True)
+            case('int_grid_fixed_first', [(1, 4, 1, False)], [1.7, None], mn, full, int_grid=True)
+            case('int_grid_fixed_middle', [(1, 3, 1, False), (0, 3, 1, False)], [None, 0.4, None], mn, full, int_grid=True)
+            case('int_grid_negative', [(-1, 2, 1, False)], [None, -0.55], mn, full, int_grid=True)
     return cases
 
 
@@ -518,7 +529,8 @@ def sequence_records(ctx):
             rng.shuffle(order)
             sessions.append(seq_cfgs(rng, order, 'mixed-%d-%d' % (shift, rep)))
         # the brute-force search: four searches over two parameters with one fixed_params list
-        grid = [dict(c, container='list', mseed=rng.randrange(10 ** 6)) for c in edge_grid_cfgs(ctx.seed) if c['npar'] == 2][:4]
+        two = [c for c in edge_grid_cfgs(ctx.seed) if c['npar'] == 2]
+        grid = [dict(c, container='list', mseed=rng.randrange(10 ** 6)) for c in two[:4] + [c for c in two if c.get('int_grid')][:2]]
         sessions.append([dict(c, seq={'name': 'grid-%d' % rep, 'step': c['edge'], 'k': k, 'edits': []}) for k, c in enumerate(grid)])
     recs = []
     for cfgs in sessions:
@@ -610,22 +622,33 @@ def execute_static(op, inp, rid, kept=None, later=False):
     wrap = CONTAINERS[inp.get('container', 'list')]
     fixed = [num(v) for v in inp['fixed']] if 'fixed' in inp else None
     fx_arg = None if inp.get('fixed_is_none') else (None if fixed is None else wrap(fixed, True))
+    def typed(v):
+        """the vector as the recorded dtype: an int64 / int32 / float32 array or a list of Python ints (values are exact in it)"""
+        dt = inp.get('dtype')
+        if dt == 'pyint':
+            return [int(q) for q in v]
+        return np.array(v, dtype={'int64': np.int64, 'int32': np.int32, 'float32': np.float32}[dt])
     if op == 'up':
         x = [num(v) for v in inp['x']]
         arg = np.float64(x[0]) if inp.get('scalar') else (_array(x) if inp.get('array') and x else x)
+        if inp.get('dtype'):
+            arg = typed(x)
         out = observe(lambda: Inference._project_params_up(arg, fx_arg), 'y', keep)
         site = 'Inference._project_params_up'
     elif op == 'down':
         y = [num(v) for v in inp['y']]
-        out = observe(lambda: Inference._project_params_down(_array(y) if inp.get('array') and y else y, fx_arg), 'x', keep)
+        yarg = typed(y) if inp.get('dtype') else (_array(y) if inp.get('array') and y else y)
+        out = observe(lambda: Inference._project_params_down(yarg, fx_arg), 'x', keep)
         site = 'Inference._project_params_down'
     elif op == 'up_down':
         x = [num(v) for v in inp['x']]
-        out = observe(lambda: Inference._project_params_down(Inference._project_params_up(np.array(x), fx_arg), fx_arg), 'x', keep)
+        xarg = typed(x) if inp.get('dtype') else np.array(x)
+        out = observe(lambda: Inference._project_params_down(Inference._project_params_up(xarg, fx_arg), fx_arg), 'x', keep)
         site = 'Inference._project_params_up'
     elif op == 'down_up':
         y = [num(v) for v in inp['y']]
-        out = observe(lambda: Inference._project_params_up(Inference._project_params_down(np.array(y), fx_arg), fx_arg), 'y', keep)
+        yarg = typed(y) if inp.get('dtype') else np.array(y)
+        out = observe(lambda: Inference._project_params_up(Inference._project_params_down(yarg, fx_arg), fx_arg), 'y', keep)
         site = 'Inference._project_params_down'
     elif op == 'perturb':
         params = [num(v) for v in inp['params']]
@@ -673,6 +696,23 @@ def static_records(ctx):
         free = {'fixed': [NONE] * n, 'fixed_is_none': True, 'array': n % 2 == 0}
         add('up', dict(free, x=rats([0.0, 1.25, -3.0][:n]), scalar=False))
         add('down', dict(free, y=rats([0.0, 1.25, -3.0][:n])))
+    # the free vector in other dtypes (integer arrays as numpy.mgrid / an integer search grid produce them, float32, lists of
+    # Python ints) around NON-integer fixed values: 0.4 / 1.7 are not exact in float32, 0.5 / 1.75 are (then a float32 y can agree)
+    for n in (2, 3):
+        for pattern in itertools.product([False, True], repeat=n):
+            if all(pattern) or not any(pattern):
+                continue
+            for dt in ('int64', 'int32', 'float32', 'pyint'):
+                free = [1.25, -3.0, 0.5] if dt == 'float32' else [2.0, -3.0, 0.0]
+                for fv in ([0.4, -2.5, 1.7], [0.5, -2.5, 1.75]):
+                    mask = [fv[i] if f else None for i, f in enumerate(pattern)]
+                    x = free[:n - sum(pattern)]
+                    y = [(m if m is not None and dt == 'float32' and float(np.float32(m)) == m else free[i]) for i, m in enumerate(mask)]
+                    base = {'fixed': [enc(m) for m in mask], 'fixed_is_none': False, 'array': False, 'dtype': dt}
+                    add('up', dict(base, x=rats(x), scalar=False))
+                    add('up_down', dict(base, x=rats(x)))
+                    add('down', dict(base, y=rats(y)))
+                    add('down_up', dict(base, y=rats(y)))
     for k in range(80 if ctx.quick else 1500):
         n = rng.randint(1, 6)
         mask = rand_mask(rng, n, rng.choice([0.0, 0.3, 0.6, 1.0]))
@@ -909,7 +949,8 @@ def _pipeline1(ctx, recs, extra):
              'fixed_params list of the same length; plus a session of four optimize_grid searches) keeps the parameter object each call returned and reads all earlier '
              'ones again after every later call (values at return vs now, memory overlap with the newest result); the results of the direct '
              '_project_params_up / _project_params_down calls are kept likewise and read again after all later calls; '
-             'up/down: every mask pattern over 0-3 entries with fixed 0.0 / int 0 / negative, free value 0, scalar argument; '
+             'up/down: every mask pattern over 0-3 entries with fixed 0.0 / int 0 / negative, free value 0, scalar argument; int64 / int32 / float32 arrays and '
+             'lists of Python ints as the free (full) vector around non-integer fixed values; optimize_grid over integer slices with non-integer fixed parameters; '
              'perturb: every pairing of {no argument, None entry, negative, 0, positive} bounds, equal bounds, parameters -1/0/1, folds 0/1/3, containers.',
         assumptions=['at least one parameter is free (with every parameter fixed there is nothing to optimise; nlopt refuses dimension 0)',
                      'start points and fixed values lie inside the bounds (the quantifier of C12)',
